@@ -969,7 +969,7 @@ impl Monitor for M {
 
     fn phases(&self, tier: Tier) -> Vec<Phase> {
         vec![
-            Phase::new("known", KNOWN_CASES).batch(1),
+            Phase::new("known", KNOWN_CASES).batch(1).exhaustive("the fixed reproducers of the listed findings"),
             Phase::new("golden", goldens().len() as u64)
                 .batch(1)
                 .exhaustive("every .txt file under crates/boxworks-knuthplass/testdata and crates/boxworks-bin/tests"),
